@@ -390,7 +390,9 @@ impl Check for C14 {
                 );
             } else if f.len() < s.len() {
                 let open = info.client_close.is_none() && info.peer_close.is_none();
-                let settled = end >= last_flip_t.get(&c).cloned().unwrap_or(0) + 1000;
+                // a frame cannot be delivered to a peer that does not read: only connections whose
+                // peer has been reading for the last second count as settled
+                let settled = end >= last_flip_t.get(&c).cloned().unwrap_or(0) + 1000 && end >= v.reading_since(c).saturating_add(1000);
                 if open && settled {
                     vd.fail(
                         "C14",
